@@ -441,3 +441,34 @@ fn main() {
         let _ = h.join();
     }
 }
+
+#[cfg(test)]
+mod tests {
+    use super::*;
+    use quote::quote;
+
+    #[test]
+    fn compile_error_detection() {
+        let mut e = syn::Error::new(proc_macro2::Span::call_site(), "first \"quoted\" \\ msg");
+        e.combine(syn::Error::new(proc_macro2::Span::call_site(), "second"));
+        let (msgs, other) = compile_errors(&e.into_compile_error()).unwrap();
+        assert_eq!(msgs, vec!["first \"quoted\" \\ msg".to_string(), "second".to_string()]);
+        assert!(!other);
+
+        let (msgs, other) = compile_errors(&quote! { ::core::compile_error!("a"); struct X; }).unwrap();
+        assert_eq!(msgs, vec!["a".to_string()]);
+        assert!(other);
+
+        assert!(compile_errors(&quote! { struct X; ::core::compile_error!("a"); }).is_none());
+        assert!(compile_errors(&quote! { pub struct Dev<I> { x: I } }).is_none());
+        assert!(compile_errors(&TokenStream::new()).is_none());
+        let (msgs, _) = compile_errors(&quote! { compile_error! { "bare" } }).unwrap();
+        assert_eq!(msgs, vec!["bare".to_string()]);
+    }
+
+    #[test]
+    fn fnv() {
+        assert_eq!(fnv1a64(b""), 0xcbf29ce484222325);
+        assert_eq!(fnv1a64(b"a"), 0xaf63dc4c8601ec8c);
+    }
+}
